@@ -11,10 +11,13 @@ C09 driver.  Trace (harness/rescandrv):
 DIFF compares arm + callbacks of every ntfn/tick/step/update op with the model.  The ORACLE uses only the callbacks,
 the update ops and the ground truth (Spec.Rescan): walk, no-miss, reported heights, no hang.
 
-`shape=` of a walk failure: the driver follows the best chain from the grow/reorg ops and remembers in which arm the
-rescan was (arm printed by the previous op) when a reorganisation removed the block the caller was last told is current:
-  reorg-during-catchup      it was in the catch-up arm (F13)
-  reorg-unread-at-catchup   it was current, but entered the catch-up arm before reading the disconnects
+`shape=` of a walk failure (Spec.Rescan `staleNext` / `walkFailShape`, the same functions `Props/C09` uses): the driver follows
+the best chain from the grow/reorg ops and the caller's current block from the callbacks, and after every op re-labels
+"the caller's current block left the best chain while the rescan was in the <arm printed by the previous op> arm":
+  reorg-during-catchup      connected non-child from a catch-up step, label catchup (F13)
+  reorg-unread-at-catchup   connected non-child from a catch-up step, label unread (it was current, but entered the
+                            catch-up arm before reading the disconnects)
+  disconnect-not-current    a disconnected callback that does not name the caller's current block (never a recorded shape)
   walk                      anything else
 -/
 import Driver.Proto
@@ -121,11 +124,6 @@ def parseHeader (ws : List String) : Option Hdr :=
     | _ => none
   | _ => none
 
-/-- where the caller's current block went stale -/
-inductive Stale where
-  | no | catchup | current
-deriving DecidableEq
-
 def runCase : CaseFn := fun c => Id.run do
   let mut out : Array String := #[]
   let some hd := parseHeader c.header
@@ -138,7 +136,7 @@ def runCase : CaseFn := fun c => Id.run do
   let mut callerH := hd.startH
   let mut chain := hd.chain
   let mut arm := "catchup"
-  let mut stale := Stale.no
+  let mut stale := staleNext Stale.no (onChainB hd.chain hd.start hd.startH) false
   let mut diverged := false
   for (ln, line) in c.lines do
     let (op, obs) := splitObs line
@@ -165,11 +163,7 @@ def runCase : CaseFn := fun c => Id.run do
         -- the driver's own view of the best chain (for shape classification only)
         match ev with
         | .grow b => chain := chain ++ [b]
-        | .reorg d bs =>
-          let keep := chain.length - d
-          if stale == .no && chain[callerH]? == some caller.cur && callerH ≥ keep then
-            stale := if arm == "current" then .current else .catchup
-          chain := chain.take keep ++ bs
+        | .reorg d bs => chain := chain.take (chain.length - d) ++ bs
         | _ => pure ()
         -- model
         let (st', mcbs) := step W st ev
@@ -204,16 +198,12 @@ def runCase : CaseFn := fun c => Id.run do
               if !heightOk W cb then
                 out := out.push s!"ORACLE-FAIL C09 case {c.num} line {ln}: shape=height callback {showCb cb} reports a height that is not the block's height"
               if !wok then
-                let viaStep := ev == Ev.step
-                let shape :=
-                  if viaStep && stale == .catchup then "reorg-during-catchup"
-                  else if viaStep && stale == .current then "reorg-unread-at-catchup"
-                  else "walk"
+                let shape := walkFailShape stale (ev == Ev.step) cb
                 let what := match cb with
-                  | .conn _ id _ => s!"connected {id} (parent {W.prev id}) is not a child of the current block {caller.cur}"
-                  | .disc _ id => s!"disconnected {id} is not the current block {caller.cur}"
+                  | .conn _ id _ => s!"connected {id} (parent {W.prev id}) is not a child of the current block {caller.cur}; no disconnected callbacks in between"
+                  | .disc _ id => s!"disconnected {id} is not the current block {caller.cur} (the caller was never told it is current)"
                   | .exit => ""
-                out := out.push s!"ORACLE-FAIL C09 case {c.num} line {ln}: shape={shape} {what}; no disconnected callbacks in between"
+                out := out.push s!"ORACLE-FAIL C09 case {c.num} line {ln}: shape={shape} {what}"
               if !mok then
                 let exp := match cb with
                   | .conn _ id _ => (owed W caller.w id).1
@@ -225,8 +215,10 @@ def runCase : CaseFn := fun c => Id.run do
               | .exit => pure ()
             | _ => pure ()
             caller := c'
-            if chain[callerH]? == some caller.cur then stale := .no
+          stale := staleNext stale (onChainB chain caller.cur callerH) (arm == "current")
           if mode == "catchup" || mode == "current" || mode == "dead" then arm := mode
+        else
+          stale := staleNext stale (onChainB chain caller.cur callerH) (arm == "current")
         st := st'
   return out
 
